@@ -14,6 +14,7 @@ Step(ev) ==
     [] ev.k = "selfcheck" -> ev.ok /\ UNCHANGED cvars
     [] ev.k = "mapget" -> ev.ok /\ MapGet(ev.g)
     [] ev.k = "race" -> FALSE
+    [] ev.k = "recycled" -> UNCHANGED cvars
     [] OTHER -> UNCHANGED cvars
 TraceInit == l = 1 /\ skip = TRUE /\ CInit
 TraceNext ==
@@ -22,6 +23,10 @@ TraceNext ==
   /\ LET ev == Trace[l] IN
      IF ev.k = "reset" THEN /\ holder' = <<>> /\ ref' = <<>> /\ mine' = <<>> /\ skip' = FALSE
                             /\ UNCHANGED <<lock, read, regions, spc, pend, map>>
+     ELSE IF ev.k = "recycled" /\ ~ev.clean
+          THEN \* the model's ResetOnRecycle (a pooled object references nothing of its last user) does not hold for
+               \* this object: implementation-level disagreement, reported as drift (no observable leak by itself)
+               ReportWhy("DRIFT", l, ev.typ) /\ UNCHANGED <<cvars, skip>>
      ELSE IF skip THEN UNCHANGED <<cvars, skip>>
      ELSE \/ Step(ev) /\ skip' = FALSE
           \/ ~ENABLED Step(ev) /\ ReportWhy("MISMATCH", l, ev.k) /\ skip' = TRUE /\ UNCHANGED cvars
